@@ -312,17 +312,31 @@ func (s *sim) checkTermination(idle bool) {
 	}
 }
 
-// noteRefusal records that a node's signer refused to sign at a height.
-func (s *sim) noteRefusal(n *simNode, h int64) {
+// noteRefusal records that a node's signer refused to sign at a height (typ 0: a proposal).
+func (s *sim) noteRefusal(n *simNode, h int64, r int32, typ int) {
 	n.mu.Lock()
 	starting := n.starting
+	if starting {
+		n.replayRefused = append(n.replayRefused, refusal{h, r, typ})
+	}
 	n.mu.Unlock()
 	if starting {
 		// WAL replay re-derives the votes of earlier rounds and the signer refuses them as
-		// regressions; the votes themselves are in the WAL and are replayed, nobody is muted
+		// regressions; normally the votes themselves are in the WAL and are replayed, nobody is
+		// muted. Whether that is so is judged when the replay is over (settleReplayRefusals).
 		s.env.Count("probe.sign_refused_during_replay")
 		return
 	}
+	s.markRefused(n, h)
+}
+
+type refusal struct {
+	h   int64
+	r   int32
+	typ int
+}
+
+func (s *sim) markRefused(n *simNode, h int64) {
 	if s.refused == nil {
 		s.refused = map[int]map[int64]bool{}
 	}
@@ -330,6 +344,34 @@ func (s *sim) noteRefusal(n *simNode, h int64) {
 		s.refused[n.idx] = map[int64]bool{}
 	}
 	s.refused[n.idx][h] = true
+}
+
+// settleReplayRefusals: a signature refused during the WAL replay leaves the node mute for
+// that round unless the replay also brought the node's own message back (the crash fell
+// between the signer's state write and the WAL write: the signer remembers, the WAL does not).
+func (s *sim) settleReplayRefusals(n *simNode) {
+	n.mu.Lock()
+	rr := n.replayRefused
+	n.replayRefused = nil
+	n.mu.Unlock()
+	if len(rr) == 0 || n.cs == nil || !n.isAlive() {
+		return
+	}
+	rs := n.cs.GetRoundState()
+	for _, x := range rr {
+		have := x.h < rs.Height
+		if x.h == rs.Height {
+			if x.typ == 0 {
+				have = x.r < rs.Round || rs.Proposal != nil
+			} else if vs := voteSetOf(rs, x.r, x.typ); vs != nil {
+				have = vs.GetByAddress(n.addr) != nil
+			}
+		}
+		if !have {
+			s.env.Count("probe.replay_refusal_left_node_mute")
+			s.markRefused(n, x.h)
+		}
+	}
 }
 
 // stalledFor returns how long (simulated) no live node has changed its height/round/step.
